@@ -253,3 +253,29 @@ M("M_C16_d", ["C16"], "cotengra/presets.py",
   "        if self._optimizer_hyper_cls is HyperOptimizer:\n",
   "        if self._optimizer_hyper_cls is None:\n",
   "revert of the cache=False fix (F5)", ["tests/test_optimizers.py"])
+
+# ------------------------------- C17 --------------------------------------
+M("M_C17_a", ["C17"], "cotengra/slicer.py",
+  "        self.rng = get_rng(seed)\n",
+  "        self.rng = get_rng(seed if temperature < 1.5 else None)\n",
+  "SliceFinder ignores its seed at high temperature", ["tests/test_slicer.py"])
+M("M_C17_b", ["C17"], "cotengra/core.py",
+  "            self.childless = oset([self.root] if self.N > 1 else [])",
+  "            self.childless = set([self.root] if self.N > 1 else [])",
+  "hash-ordered set of childless nodes in the divisive builder (frozensets of ints hash deterministically -> expected quiet)", ["tests/test_tree.py"], harmless=True)
+M("M_C17_c", ["C17"], "cotengra/core.py",
+  "                        \"seed\": rng.randrange(2**32),\n",
+  "",
+  "revert of the forest sapling seeding", ["tests/test_tree.py"])
+M("M_C17_d", ["C17"], "cotengra/pathfinders/path_simulated_annealing.py",
+  "        tree.unslice_rand_(seed=rng)\n    tree.slice_(target_size=current_target_size, seed=rng)",
+  "        tree.unslice_rand_(seed=rng)\n    tree.slice_(target_size=current_target_size)",
+  "annealing's 'basic' slice mode slices with the global generator", ["tests/test_tree.py"])
+M("M_C17_e", ["C17"], "cotengra/utils.py",
+  "def make_rand_size_dict_from_inputs(inputs, d_min=2, d_max=3, seed=None):",
+  "def make_rand_size_dict_from_inputs(inputs, d_min=2, d_max=3, seed=None):\n    inputs = [sorted(set(t), key=hash) for t in inputs]",
+  "size dict generator iterates indices in string-hash order (PYTHONHASHSEED dependent)", ["tests/test_tree.py"])
+M("M_C17_f", ["C17"], "cotengra/pathfinders/path_labels.py",
+  "    labels = sites.copy()\n    pops = collections.Counter(labels)\n\n    rng = get_rng(seed)",
+  "    labels = sites.copy()\n    pops = collections.Counter(labels)\n\n    rng = get_rng(seed if n > 6 else None)",
+  "labels partition unseeded for small (sub)graphs only", ["tests/test_tree.py"])
